@@ -37,7 +37,12 @@ func val(v int64, den int64) float64 { return float64(v) / float64(den) }
 // padding columns, and `extra` canary elements after the last addressed element.
 func build(a imat, den int64, m, n, lda, extra int) []float64 {
 	if m == 0 || n == 0 {
-		s := make([]float64, extra)
+		// an m x 0 matrix still spans (m-1)*lda elements by the LAPACK length rule
+		ln := extra
+		if m > 0 {
+			ln += (m - 1) * lda
+		}
+		s := make([]float64, ln)
 		for i := range s {
 			s[i] = tailNaN
 		}
@@ -96,6 +101,12 @@ func (k *chk) near(got float64, v int64, den int64, tol *big.Rat) (ok, exact boo
 	d := new(big.Rat).SetFloat64(got)
 	d.Sub(d, big.NewRat(v, den))
 	d.Abs(d)
+	if tol.Sign() > 0 {
+		r, _ := new(big.Rat).Quo(d, tol).Float64()
+		if old, _ := k.sum.Extra["max_dev_over_tol"].(float64); r > old && r <= 1 {
+			k.sum.Extra["max_dev_over_tol"] = r
+		}
+	}
 	return d.Cmp(tol) <= 0, false
 }
 
@@ -151,13 +162,17 @@ func (k *chk) cmpPad(routine, what string, got []float64, ld, m, n int) {
 
 // cmpSame checks bit-identity of a region with a snapshot (operands that must not change).
 func (k *chk) cmpSame(routine, what string, got, before []float64) {
+	k.cmpSameKind(routine, "touch", what, got, before)
+}
+
+func (k *chk) cmpSameKind(routine, kind, what string, got, before []float64) {
 	if len(got) != len(before) {
-		k.fail(routine, "touch", "%s: length changed", what)
+		k.fail(routine, kind, "%s: length changed", what)
 		return
 	}
 	for i := range got {
 		if math.Float64bits(got[i]) != math.Float64bits(before[i]) {
-			k.fail(routine, "touch", "%s: element %d changed from %v to %v", what, i, before[i], got[i])
+			k.fail(routine, kind, "%s: element %d changed from %v to %v", what, i, before[i], got[i])
 			return
 		}
 	}
